@@ -248,6 +248,14 @@ func Main(id, tier string) int {
 			cov["exhaustive_note"] = "every case ran, but " + k + " = " + fmt.Sprint(v) + ": those explorations stopped at their execution cap (see counters for the ones completed to the bound)"
 		}
 	}
+	for k, v := range total.Counters {
+		if strings.HasPrefix(k, "harness_errors") && v > 0 {
+			// the machinery itself failed somewhere (not the property): what it did not decide is not claimed
+			cov["exhaustive"] = false
+			cov["exhaustive_note"] = fmt.Sprint(cov["exhaustive_note"], " ", k, " = ", v, ": those cases were not decided")
+			fmt.Printf("note: %s = %d (machinery error; the affected cases are not decided and the run is not reported as exhaustive)\n", k, v)
+		}
+	}
 	if len(total.Samples) == 0 {
 		cov["samples"] = []interface{}{"(no case was run)"}
 	}
